@@ -119,6 +119,16 @@ def run(F, R, tier):
         R.check(("const", False) in [v for b, v in ret_out] and has_default, "C02.R2", "C02.R2:%s:post-loop-outcomes" % ia["id"], "-",
                 "after the loops the result is `false` (privilege matched, no identity) or self.defaultAllowed: %s" % sorted(outs),
                 "post-loop results: %s" % sorted(outs))
+        # before the iteration there is exactly one way out: the disabled short-circuit (true). Any other pre-loop result ("no assignments
+        # at all => default access", "empty privilege list => ...") decides without looking at the privileges
+        pre = []
+        if len(outer) == 1:
+            before = B.reach([0], cut_blocks=[outer[0][0]])
+            pre = [(b, v) for b, v in ret_out if b in before]
+        R.check(len(pre) == 1 and pre[0][1] == ("const", True), "C02.R2", "C02.R2:%s:no-decision-before-the-loop" % ia["id"], "-",
+                "the only result produced before the privileges are examined is the disabled short-circuit (`true`)",
+                "results produced before the privilege loop: %s - a decision is taken without matching the URL against the privileges "
+                "(e.g. a fast path for an empty assignment table)" % [(B.line(b), v) for b, v in pre])
         # the false result is guarded by the flag only
         false_blocks = [b for b, v in ret_out if v == ("const", False)]
         guards = []
